@@ -8,9 +8,12 @@ CL: the tables written by `spowtd rise` / `spowtd recession` satisfy the same
 zero-residual-sum condition.
 """
 import copy
+import math
+import os
 from fractions import Fraction
 
-import numpy as np
+os.environ.setdefault('OPENBLAS_NUM_THREADS', '1')   # (before numpy is loaded: a busy machine makes threaded BLAS 100x slower on the large cases)
+import numpy as np  # noqa: E402
 
 from harness import common as C
 from harness import gen_offsets as GO
@@ -86,6 +89,74 @@ def check_fl(cases, out, label):
     for i in bad:
         out.violation('corr', 'model find_offsets <> fit_offsets.find_offsets (beyond tolerance) on %s'
                       % str(meta[i])[:800], case=meta[i])
+
+
+def bucket(x):
+    """Decade label of a positive number (for the histograms of the evidence)."""
+    return '1e%d' % math.floor(math.log10(x)) if x > 0 else '0'
+
+
+def check_large(cases, out):
+    """LARGE-INPUT STAGE, oracle only (these mappings are NOT sent to Coq: reading thousands of literals dominates).
+    Mappings past the sizes at which software chunks its work (more than 4096 / 8192 equations, the count not a
+    multiple of 1000, 1024, 4096, 8192, 10000) and ill-conditioned connected ones (staircase of single-level links
+    + long intervals, sigma_min/sigma_max of the design matrix measured and recorded).  Judged with exact fractions
+    on the offsets find_offsets returns: (1) every interval's residuals against the master curve sum to zero within
+    1e-9 * magnitude * sqrt(equations); (2) the spread is not larger than the spread of an independent minimiser
+    (gen_offsets.independent_offsets: projector form of the stationarity conditions, another interval grounded);
+    (3) noise-free plants: the offsets are the planted constants up to the common shift."""
+    for hm, truth in cases:
+        out.evaluations += 1
+        neq = GO.n_equations(hm)
+        out.count('FL-large:' + truth.get('shape', '?'))
+        out.count('FL-large: %d000-%d999 equations' % (neq // 1000, neq // 1000))
+        if neq > 4096 and all(neq % b for b in GO.BLOCKS):
+            out.count('FL-large: > 4096 equations, no multiple of 1000/1024/4096/8192/10000')
+        case = dict(level='FLL', hm={str(h): seq for h, seq in hm.items()}, shape=truth.get('shape'),
+                    planted={str(k): v for k, v in truth['planted'].items()} if truth.get('planted') else None)
+        ratio = GO.singular_ratio(hm)
+        out.count('FL-large: sigma_min/sigma_max of the design matrix in [%s, 10x)' % bucket(ratio))
+        what = '%d equations, %d intervals, sigma_min/sigma_max %.3g (%s)' % (
+            neq, len({s for seq in hm.values() for s, _ in seq}), ratio, truth.get('shape'))
+        res = impl_find_offsets(hm)
+        if res[0] == 'err':
+            out.violation('oracle', 'find_offsets raised %s on a connected overlap graph: %s' % (res[2], what), case=case)
+            continue
+        ids, offs = res[1], res[2]
+        scale = scale_of(hm)
+        x = {s: Fraction(v) for s, v in zip(ids, offs)}
+        if set(x) != {s for seq in hm.values() if len(seq) >= 2 for s, _ in seq}:
+            out.violation('oracle', 'find_offsets returns offsets for %d intervals, %d cross a shared level: %s'
+                          % (len(x), len({s for seq in hm.values() if len(seq) >= 2 for s, _ in seq}), what), case=case)
+            continue
+        total, resid = GO.spread(hm, x)
+        wi = max(resid, key=lambda s_: abs(resid[s_]))
+        tol_r = 1e-9 * scale * math.sqrt(neq)
+        bad = False
+        if abs(resid[wi]) > tol_r:
+            bad = True
+            out.violation('oracle', 'the residuals of interval %d against the master curve sum to %.6g, not 0 (tolerance %.3g): %s'
+                          % (wi, float(resid[wi]), tol_r, what), case=case)
+        y = GO.independent_offsets(hm)
+        ty, _ = GO.spread(hm, {s: Fraction(v) for s, v in y.items()})
+        if total - ty > Fraction(1e-9) * ty + Fraction((1e-9 * scale) ** 2 * neq):
+            bad = True
+            out.violation('oracle', 'the offsets do not minimise the squared spread: %.12g with the returned offsets, %.12g with '
+                          'independently computed ones: %s' % (float(total), float(ty), what), case=case)
+        if offs and offs[-1] != 0.0:
+            out.violation('oracle', 'reference interval (largest id) does not have offset 0: %r' % offs[-1], case=case)
+        planted = truth.get('planted')
+        if planted:
+            ref = ids[-1]
+            pos = {s_: i for i, s_ in enumerate(ids)}
+            dev = {s_: abs((offs[pos[s_]] - offs[pos[ref]]) - (planted[s_] - planted[ref])) for s_ in ids}
+            worst = max(dev, key=dev.get)
+            if dev[worst] > 1e-6 * scale:
+                bad = True
+                out.violation('oracle', 'noise-free plant: interval %d is placed %.6g away from where its planted constant puts '
+                              'it relative to the reference (all pieces lie on one curve): %s' % (worst, dev[worst], what), case=case)
+        if not bad and len(ids) >= 3:
+            out.nontriv(('fll', truth.get('shape'), neq, len(ids)))
 
 
 def check_series(cols, out, label):
@@ -212,6 +283,16 @@ def run(ctx, out):
     cases += [({}, dict(shape='empty')), ({3: [(0, 1.0)]}, dict(shape='single')),
               ({3: [(0, 1.0), (1, 2.5)]}, dict(shape='two'))]
     check_fl(cases, out, 'fl')
+    # large-input stage (oracle only, own random streams): one ragged large noisy mapping, one noise-free and one
+    # noisy ill-conditioned staircase; thorough: more sizes, among them > 8192 and > 10000 equations
+    big = []
+    for k in range(1 if tier == 'quick' else 6):
+        rl = C.rng_for(seed, PROP, 'large', k)
+        big.append(GO.gen_large_mapping(rl) if k < 2 else GO.gen_large_mapping(rl, min_eq=[8200, 10001, 12300, 16400][k - 2],
+                                                                               max_eq=[9999, 12200, 16300, 20000][k - 2]))
+        big.append(GO.gen_chain_long(C.rng_for(seed, PROP, 'chain', k), noise=False))
+        big.append(GO.gen_chain_long(C.rng_for(seed, PROP, 'chain-noisy', k), noise=True))
+    check_large(big, out)
     from harness.props import c08 as P8
     rngs = C.rng_for(seed, PROP, 'series')
     check_series([P8.gen_collection(rngs, tie=(k % 3 != 2)) for k in range(60 if tier == 'quick' else 600)], out, 'fls')
@@ -220,7 +301,10 @@ def run(ctx, out):
     except ImportError:
         out.notes.append('CL part unavailable (curves_common missing)')
     out.rule = ('FL: generated connected overlap graphs (chain / star / random, 2-8 intervals, levels crossed by 1..8 '
-                'intervals, dyadic crossing values with noise) through find_offsets; FLS: interval collections (pieces of '
+                'intervals, dyadic crossing values with noise) through find_offsets; FL-large (oracle only, not sent to Coq: '
+                'residual sums, spread against an independent minimiser, planted constants): a noisy mapping of 60-160 intervals '
+                'with 5000-9000 equations (no multiple of 1000/1024/4096/8192/10000) and two staircases of 600-900 single-level '
+                'links hanging from 2-4 intervals sharing 1200-2000 levels (sigma_min/sigma_max 3e-5..5e-5, recorded); FLS: interval collections (pieces of '
                 'one decreasing curve, 2/3 of them with two or three intervals starting from exactly the same highest '
                 'level) through get_series_time_offsets, the returned (indices, offsets, mapping) checked; CL: synthetic '
                 'datasets through the CLI up to rise/recession (1/3 with two recessions starting from exactly the same '
@@ -241,6 +325,10 @@ def replay(case, out):
     if case['level'] == 'FL':
         hm = {int(h): [(int(s), float(t)) for s, t in seq] for h, seq in case['hm'].items()}
         check_fl([(hm, dict(shape='replay'))], out, 'replay')
+    elif case['level'] == 'FLL':
+        hm = {int(h): [(int(s), float(t)) for s, t in seq] for h, seq in case['hm'].items()}
+        planted = {int(k): v for k, v in case['planted'].items()} if case.get('planted') else None
+        check_large([(hm, dict(shape=case.get('shape') or 'replay', planted=planted))], out)
     elif case['level'] == 'FLS':
         series = [(np.array(t), np.array(H)) for t, H in case['series']]
         check_series([(series, case['grid'], 0)], out, 'replay')
